@@ -862,7 +862,13 @@ XalanTransformer::setStylesheetParam(
             const XalanDOMString&    qname,
             const XalanDOMString&    expression)
 {
-    m_params[qname].m_expression = expression;
+    XalanParamHolder&   theHolder = m_params[qname];
+
+    theHolder.m_expression = expression;
+
+    // The most recent call determines the value: drop an object
+    // that was set for the same name.
+    theHolder.m_value = XObjectPtr();
 }
 
 void
@@ -870,7 +876,13 @@ XalanTransformer::setStylesheetParam(
             const XalanDOMString&    qname,
             XObjectPtr               object)
 {
-    m_params[qname].m_value = object;
+    XalanParamHolder&   theHolder = m_params[qname];
+
+    theHolder.m_value = object;
+
+    // The most recent call determines the value: drop an expression
+    // that was set for the same name.
+    theHolder.m_expression.clear();
 }
 
 
